@@ -33,7 +33,7 @@ MANIFEST = {
     'technique': 'explicit-state BFS over request histories on the real application (fresh import per replay), states '
                  'deduplicated by a canonical walk of all retained objects; per-transition differential oracle against a '
                  'fresh process; fixpoint = bounded retained state; k^N liveness runs with weak references',
-    'text': 'All histories over 29 request kinds are served in every order up to depth 3 (quick) / 4 (thorough; plus BFS with state merging to '
+    'text': 'All histories over 32 request kinds are served in every order up to depth 3 (quick) / 4 (thorough; plus BFS with state merging to '
             'depth 6); every served response is compared with the response of the same request on a freshly '
             'imported framework; each kind is repeated N times and the live per-request objects are counted.',
     'note': 'Bounds: 15 request kinds, depth as stated, N=2000 (thorough 5000). Trusted: CPython gc/weakref, the canonicaliser.',
@@ -77,6 +77,12 @@ KINDS = [
     ('upload-bare', 'POST', '/upinfo', {'body': MP_BARE, 'ctype': 'multipart/form-data; boundary=BND'}),
     ('session', 'GET', '/session', {'headers': {'Cookie': '@session'}}),
     ('uploadvar', 'POST', '/upinfo', {'body': MP_VAR, 'ctype': 'multipart/form-data; boundary=BND'}),
+    # body errors that carry a text of their own (invalid JSON; a multipart part without a name) - '400' above carries none
+    ('badjson', 'POST', '/json', {'body': b'{"alice-secret": ', 'ctype': 'application/json'}),
+    ('mp-noname', 'POST', '/upinfo', {'body': b'--BND\r\nContent-Disposition: form-data; filename="salary-of-alice.xls"\r\n\r\nx\r\n--BND--\r\n',
+                                       'ctype': 'multipart/form-data; boundary=BND'}),
+    # an upload whose boundary is different at every repetition (clients pick random boundaries)
+    ('uploadbvar', 'POST', '/upinfo', {'body': MP_BARE.replace(b'BND', b'BND{i}'), 'ctype': 'multipart/form-data; boundary=BND{i}'}),
     # a static file served plainly, with a Range and with If-Modified-Since; literal and wildcard sibling routes
     ('static', 'GET', '/static/f.txt', {}),
     ('static-range', 'GET', '/static/f.txt', {'headers': {'Range': 'bytes=2-5'}}),
@@ -152,6 +158,7 @@ def fresh_app():
         app.response.set_cookie('sess', s, secret=SESSION_SECRET)
         return 'session:' + repr(sorted(s.items()))
     app.route('/upinfo', 'POST', upinfo)
+    app.route('/json', 'POST', lambda: repr(app.request.json))
     app.route('/session', 'GET', session)
     app.route('/ok', 'GET', ok)
     app.route('/set', 'GET', setter)
@@ -183,6 +190,8 @@ def serve(app, k, refs=None, i=0):
     path = path.replace('{i}', str(i))
     if 'qs' in kw:
         kw['qs'] = kw['qs'].replace('{i}', str(i))
+    if 'ctype' in kw:
+        kw['ctype'] = kw['ctype'].replace('{i}', str(i))
     body = kw.pop('body', None)
     if body is not None and b'{i}' in body:
         body = body.replace(b'{i}', str(i).encode())
@@ -230,7 +239,56 @@ def state_key(obj):
         if name == 'ombott' or name.startswith('ombott.'):
             mods[name] = {k: v for k, v in vars(mod).items()
                           if not k.startswith('__') and not isinstance(v, (type, type(sys))) and not callable(v)}
+            mods[name + ' (hidden)'] = hidden_state(mod, name)
     return _canon([app, mods])
+
+
+_CONTAINERS = (list, dict, set, bytearray)
+
+
+def hidden_state(mod, modname):
+    """state that lives behind the module's functions and classes: memo caches (functools), mutable default arguments,
+    containers captured in closures, container-valued class attributes"""
+    import types
+    out = {}
+
+    def of_function(label, f):
+        ci = getattr(f, 'cache_info', None)
+        if ci is not None:
+            try:
+                out[label + ' cache entries'] = [0] * ci().currsize        # one node per entry: the retained-state SIZE follows the cache
+            except Exception:   # noqa
+                pass
+            f = getattr(f, '__wrapped__', f)
+        if not isinstance(f, types.FunctionType):
+            return
+        for i, d in enumerate(f.__defaults__ or ()):
+            if isinstance(d, _CONTAINERS):
+                out[f'{label} default {i}'] = d
+        for k, d in (f.__kwdefaults__ or {}).items():
+            if isinstance(d, _CONTAINERS):
+                out[f'{label} kwdefault {k}'] = d
+        for i, cell in enumerate(f.__closure__ or ()):
+            try:
+                d = cell.cell_contents
+            except ValueError:
+                continue
+            if isinstance(d, _CONTAINERS):
+                out[f'{label} closure {i}'] = d
+    for k, v in vars(mod).items():
+        if k.startswith('__'):
+            continue
+        if isinstance(v, type) and getattr(v, '__module__', '') == modname:
+            for ck, cv in vars(v).items():
+                if ck.startswith('__'):
+                    continue
+                if isinstance(cv, _CONTAINERS):
+                    out[f'{k}.{ck}'] = cv
+                elif isinstance(cv, (types.FunctionType, staticmethod, classmethod)) or hasattr(cv, 'cache_info'):
+                    of_function(f'{k}.{ck}', getattr(cv, '__func__', cv))
+        elif callable(v) and getattr(v, '__module__', modname) == modname:
+            of_function(k, v)
+    return out
 
 
 _solo = {}
